@@ -402,8 +402,17 @@ func (a *connAgent) disarm() bool {
 }
 
 func (w *connWorld) close() {
-	_ = w.a.fw.Close() //nolint:errcheck
-	_ = w.b.fw.Close() //nolint:errcheck
+	for _, ag := range []*connAgent{w.a, w.b} {
+		_ = ag.fw.Close() //nolint:errcheck
+
+		// the case is over: drop the stores (mem frees a store's data on Close; goroutines the framework leaves behind
+		// would otherwise keep every case's data alive)
+		for _, pr := range []storage.Provider{ag.main, ag.psProv} {
+			_ = pr.(*faultProvider).Provider.Close() //nolint:errcheck,forcetypeassert
+		}
+	}
+
+	w.packets, w.evs = nil, nil
 }
 
 func (w *connWorld) agentAt(endpoint string) *connAgent {
